@@ -1,21 +1,47 @@
 /-
-Model of the status / history-cache coherence protocol between `SessionManager`
-(`limited_history`, `_notify_sessions`) and `ElectrumX` sessions (`hashX_subscribe`,
-`_notify_inner`, `confirmed_and_unconfirmed_history`) — C07, C10.
+Model of the status / history-cache / tip coherence protocol between `SessionManager`
+(`limited_history`, `_notify_sessions`, `_refresh_hsub_results`) and `ElectrumX` sessions
+(`hashX_subscribe`, `unsubscribe_hashX`, `address_status`, `_notify_inner`, `headers_subscribe`,
+`confirmed_and_unconfirmed_history`) — C07, C10.
 
-Abstraction: the true confirmed+unconfirmed state of a script hash is a *version* number
-(`cur`); a block / reorg / mempool change that alters it bumps the version and puts the script
-hash into the `carrier` (the touched sets travelling through `BlockProcessor.touched`,
-`MemPool` and `Notifications` — C01–C03, C08 and C20 are what justify "every change is carried").
-`_notify_sessions(height, touched)` takes script hashes out of the carrier.
-A history read (`DB.limited_history` in a worker thread) is cut in three: the coroutine starts it
-(remembering `_notify_count`), the worker performs it (it sees the version current *then*), the
-result reaches the coroutine (accepted only if no notification was processed meanwhile; otherwise
-read again).
+True state of a script hash `x` = (`conf x`, `mem x`):
+  `conf x`  version of its confirmed history (what `DB.limited_history` reads);
+  `mem x`   its mempool part (what `MemPool.transaction_summaries` returns, read without
+            suspension): `0` = no mempool transaction, otherwise a number standing for the list
+            of `(tx hash, has_unconfirmed_inputs)` pairs.
+A status is the pair `(c, m)` of the two values `address_status` combined.
 
-Flags select the pinned behaviour for the machine-checked counterexamples:
-  `checkCount = false`  – accept every read (F5),
-  `batch = true`        – `_notify_inner` sends all statuses after computing all of them (F15).
+Environment events and the ghost sets that state what the environment owes:
+  `change x`      a block / back-out touching `x` is flushed: `conf x` bumps, `x` joins `carrier`
+                  (the touched sets travelling BlockProcessor.touched -> Notifications ->
+                  `_notify_sessions`; C07carrier + C20);
+  `mpChange x m`  a mempool refresh adds / removes a transaction of `x`: `mem x := m`, carried
+                  (C08_touched + C20);
+  `flip x m`      the `has_unconfirmed_inputs` flag of a mempool transaction of `x` flips because
+                  a PARENT entered or left the server's mempool view: `mem x := m` (both non-zero),
+                  `x` is in NO touched set.  `x` joins the ghost set `flipped`: the environment owes
+                  a later `_notify_sessions` call with `height_changed = true` (a parent enters or
+                  leaves the mempool without its child only by being orphaned / confirmed, i.e.
+                  together with a change of the chain);
+  `advance d` / `backup` / `reorgSignal`   the DB's chain grows by a block with header `d` /
+                  loses its tip (`flush_backup`) / `_handle_chain_reorgs` bumps `_reorg_count`.
+`_notify_sessions(h, xs)` = `notify h xs`; it is cut at `await self._refresh_hsub_results(height)`
+(between `_notify_count += 1` and the cache invalidation): the header read (`DB.raw_header` in a
+worker thread) is a record in `hreads`, performed by `hdrDo` (it sees the chain of *then*) and
+delivered by `hdrFinish` (F16: an IndexError is retried with the lowered height, or raised when the
+DB is back at that height — the notification is then lost: ghost set `lost`).
+A history read (`DB.limited_history` in a worker thread) is cut in three as before (`tasks`).
+
+Ghost fields (not in the code, never read by it): `carrier`, `flipped`, `lost`, `suppressed`,
+`seen`, `tipDone`, and the `flips` component of a header read.
+
+Flags select pinned / proposed behaviour:
+  `checkCount = false`  accept every read (F5);
+  `batch = true`        `_notify_inner` sends all statuses after computing all of them (F15);
+  `recheck = false`     no second loop over `mempool_statuses` (the shape of seeded change C07-1);
+  `cmpLive = true`      PROPOSED FIX: the second loop compares the new status with the value stored
+                        in `mempool_statuses` at the moment it is replaced, not with the copy taken
+                        before the loop (which can be out of date after a suspension).
 No imports: linked into `evdrv`.
 -/
 namespace EV.System
@@ -23,13 +49,21 @@ namespace EV.System
 structure Flags where
   checkCount : Bool := true
   batch : Bool := false
+  recheck : Bool := true
+  cmpLive : Bool := false
 deriving Repr, DecidableEq, Inhabited
+
+/-- (version of the confirmed history, mempool part) -/
+abbrev Status := Nat × Nat
 
 /-- what the suspended coroutine does with the accepted history -/
 inductive Cont where
   | sub (s hx : Nat)                                   -- hashX_subscribe
   | query                                              -- get_history
-  | notify (s : Nat) (rest : List Nat) (changed : List (Nat × Nat))   -- _notify_inner
+  /-- `_notify_inner`, first loop (over touched ∩ subscribed) -/
+  | notify (s : Nat) (rest : List Nat) (changed : List (Nat × Status))
+  /-- `_notify_inner`, second loop (over the copy of `mempool_statuses`); `old` = the copy's value -/
+  | notify2 (s : Nat) (old : Status) (rest : List (Nat × Status)) (changed : List (Nat × Status))
 deriving Repr, DecidableEq, Inhabited
 
 structure Task where
@@ -39,73 +73,172 @@ structure Task where
   cont : Cont
 deriving Repr, DecidableEq, Inhabited
 
+/-- a `_notify_sessions` call suspended in `_refresh_hsub_results`: the header read at height `h`
+    (`value`: not performed / `some none` = IndexError / `some (some d)` = header `d`); `xs` = its
+    touched set; `flips` (ghost) = the flips it has taken responsibility for -/
+structure HRead where
+  h : Nat
+  value : Option (Option Nat) := none
+  xs : List Nat
+  flips : List Nat
+deriving Repr, DecidableEq, Inhabited
+
 structure St where
-  cur : List Nat := []
+  conf : List Nat := []
+  mem : List Nat := []
   carrier : List Nat := []
+  flipped : List Nat := []
+  lost : List Nat := []
+  suppressed : List Nat := []
+  chain : List Nat := [0]
+  seen : List (Nat × Nat) := [(0, 0)]
+  reorgCount : Nat := 0
+  notifiedReorgCount : Nat := 0
+  notifiedHeight : Nat := 0
+  hsub : Nat × Nat := (0, 0)
+  tipDone : Bool := true
   cache : List (Nat × Nat) := []
   subs : List (List Nat) := []
-  held : List (List (Nat × Nat)) := []
+  ms : List (List (Nat × Status)) := []
+  held : List (List (Nat × Status)) := []
+  hdrSub : List Bool := []
+  heldHdr : List (Option (Nat × Nat)) := []
+  alive : List Bool := []
   notifyCount : Nat := 0
   tasks : List Task := []
+  hreads : List HRead := []
 deriving Repr, DecidableEq, Inhabited
 
 inductive Ev where
   | change (x : Nat)
-  | notify (xs : List Nat)
+  | mpChange (x m : Nat)
+  | flip (x m : Nat)
+  | advance (d : Nat)
+  | backup
+  | reorgSignal
+  | notify (h : Nat) (xs : List Nat)
   | subscribe (s x : Nat)
+  | unsubscribe (s x : Nat)
+  | closeSession (s : Nat)
+  | subscribeHeaders (s : Nat)
   | getHistory (s x : Nat)
+  | evict (x : Nat)
   | readDo (i : Nat)
   | readFinish (i : Nat)
+  | hdrDo (i : Nat)
+  | hdrFinish (i : Nat)
 deriving Repr, DecidableEq, Inhabited
 
-def lookup (k : Nat) : List (Nat × Nat) → Option Nat
+def lookup {β : Type} (k : Nat) : List (Nat × β) → Option β
   | [] => none
   | (k', v) :: r => if k' = k then some v else lookup k r
 
-def put (k v : Nat) (l : List (Nat × Nat)) : List (Nat × Nat) :=
+def put {β : Type} (k : Nat) (v : β) (l : List (Nat × β)) : List (Nat × β) :=
   (k, v) :: l.filter (fun e => e.1 != k)
+
+/-- Python `d[k] = v`: in place if present (first occurrence), else appended -/
+def dictSet {β : Type} (k : Nat) (v : β) : List (Nat × β) → List (Nat × β)
+  | [] => [(k, v)]
+  | (k', v') :: r => if k' = k then (k, v) :: r else (k', v') :: dictSet k v r
+
+/-- Python `d.pop(k, None)` -/
+def dictErase {β : Type} (k : Nat) (l : List (Nat × β)) : List (Nat × β) :=
+  l.filter (fun e => e.1 != k)
 
 def modifyAt {α : Type} (l : List α) (i : Nat) (f : α → α) : List α :=
   l.zipIdx.map (fun (a, j) => if j = i then f a else a)
 
-def curOf (st : St) (hx : Nat) : Nat := st.cur.getD hx 0
+def confOf (st : St) (hx : Nat) : Nat := st.conf.getD hx 0
+def memOf (st : St) (hx : Nat) : Nat := st.mem.getD hx 0
+/-- the protocol-defined status now -/
+def curOf (st : St) (hx : Nat) : Status := (confOf st hx, memOf st hx)
 
 def subsOf (st : St) (s : Nat) : List Nat := st.subs.getD s []
+def msOf (st : St) (s : Nat) : List (Nat × Status) := st.ms.getD s []
+def aliveOf (st : St) (s : Nat) : Bool := st.alive.getD s false
+def hdrSubOf (st : St) (s : Nat) : Bool := st.hdrSub.getD s false
+def heldHdrOf (st : St) (s : Nat) : Option (Nat × Nat) := st.heldHdr.getD s none
 
-def heldOf (st : St) (s hx : Nat) : Option Nat := lookup hx (st.held.getD s [])
+def heldOf (st : St) (s hx : Nat) : Option Status := lookup hx (st.held.getD s [])
 
-def deliver (st : St) (s hx v : Nat) : St :=
+/-- `DB.state.height` -/
+def dbHeight (st : St) : Nat := st.chain.length - 1
+/-- the current tip: (height, header) -/
+def tipOf (st : St) : Nat × Nat := (dbHeight st, st.chain.getD (dbHeight st) 0)
+
+/-- the client of session `s` receives status `v` for `hx` (subscribe reply or notification) -/
+def deliver (st : St) (s hx : Nat) (v : Status) : St :=
   { st with held := modifyAt st.held s (put hx v) }
+
+/-- the end of `address_status`: `mempool_statuses[hashX] = status` if there are mempool
+    transactions, else `pop` -/
+def setMs (st : St) (s hx : Nat) (v : Status) : St :=
+  { st with ms := modifyAt st.ms s (fun d => if v.2 != 0 then dictSet hx v d else dictErase hx d) }
 
 def insertSorted (x : Nat) : List Nat → List Nat
   | [] => [x]
   | y :: r => if x < y then x :: y :: r else if x = y then y :: r else y :: insertSorted x r
 
-/-- the loop of `_notify_inner` over the touched ∩ subscribed script hashes (in ascending order):
-    runs until a history has to be read -/
-def notifyGo (f : Flags) (st : St) (s : Nat) : List Nat → List (Nat × Nat) → St
+/-- batch mode: send everything computed -/
+def flushChanged (st : St) (s : Nat) (changed : List (Nat × Status)) : St :=
+  changed.foldl (fun st (e : Nat × Status) => deliver st s e.1 e.2) st
+
+/-- one iteration of the first loop once the history (version `c`) is there: compute, store in
+    `mempool_statuses`, send (or collect, batch mode) -/
+def visit1 (f : Flags) (st : St) (s hx c : Nat) (changed : List (Nat × Status)) :
+    St × List (Nat × Status) :=
+  if f.batch then (setMs st s hx (c, memOf st hx), changed ++ [(hx, (c, memOf st hx))])
+  else (deliver (setMs st s hx (c, memOf st hx)) s hx (c, memOf st hx), changed)
+
+/-- `status != old_status` of the second loop -/
+def differs (f : Flags) (st : St) (s hx c : Nat) (old : Status) : Bool :=
+  if f.cmpLive then lookup hx (msOf st s) != some (c, memOf st hx) else (c, memOf st hx) != old
+
+/-- one iteration of the second loop once the history is there.  When nothing is sent although the
+    client holds something else, the script hash joins the ghost set `suppressed`. -/
+def visit2 (f : Flags) (st : St) (s hx c : Nat) (old : Status) (changed : List (Nat × Status)) :
+    St × List (Nat × Status) :=
+  if differs f st s hx c old then visit1 f st s hx c changed
+  else ({ (setMs st s hx (c, memOf st hx)) with
+            suppressed := if heldOf st s hx != some (c, memOf st hx) then st.suppressed ++ [hx]
+                          else st.suppressed }, changed)
+
+/-- the second loop of `_notify_inner` over the copy of `mempool_statuses` -/
+def notifyGo2 (f : Flags) (st : St) (s : Nat) : List (Nat × Status) → List (Nat × Status) → St
+  | [], changed => flushChanged st s changed
+  | (hx, old) :: rest, changed =>
+    if !(subsOf st s).contains hx then notifyGo2 f st s rest changed
+    else
+      match lookup hx st.cache with
+      | some c => notifyGo2 f (visit2 f st s hx c old changed).1 s rest (visit2 f st s hx c old changed).2
+      | none =>
+        { st with tasks := st.tasks ++ [{ hx := hx, countAtStart := st.notifyCount,
+                                          cont := .notify2 s old rest changed }] }
+
+/-- the first loop of `_notify_inner` over the touched ∩ subscribed script hashes (ascending);
+    at its end the copy of `mempool_statuses` is taken and the second loop starts -/
+def notifyGo (f : Flags) (st : St) (s : Nat) : List Nat → List (Nat × Status) → St
   | [], changed =>
-    -- batch mode: now send everything computed
-    changed.foldl (fun st (hx, v) => deliver st s hx v) st
+    if f.recheck then notifyGo2 f st s (msOf st s) changed else flushChanged st s changed
   | hx :: rest, changed =>
     if !(subsOf st s).contains hx then notifyGo f st s rest changed
     else
       match lookup hx st.cache with
-      | some v =>
-        if f.batch then notifyGo f st s rest (changed ++ [(hx, v)])
-        else notifyGo f (deliver st s hx v) s rest changed
+      | some c => notifyGo f (visit1 f st s hx c changed).1 s rest (visit1 f st s hx c changed).2
       | none =>
         { st with tasks := st.tasks ++ [{ hx := hx, countAtStart := st.notifyCount,
                                           cont := .notify s rest changed }] }
 
-/-- continue a coroutine with an accepted history of version `v` -/
-def resume (f : Flags) (st : St) (hx v : Nat) : Cont → St
+/-- continue a coroutine with an accepted history of version `c` -/
+def resume (f : Flags) (st : St) (hx c : Nat) : Cont → St
   | .sub s x =>
-    { (deliver st s x v) with subs := modifyAt st.subs s (insertSorted x) }
+    { (deliver (setMs st s x (c, memOf st x)) s x (c, memOf st x)) with
+        subs := modifyAt st.subs s (insertSorted x) }
   | .query => st
   | .notify s rest changed =>
-    if f.batch then notifyGo f st s rest (changed ++ [(hx, v)])
-    else notifyGo f (deliver st s hx v) s rest changed
+    notifyGo f (visit1 f st s hx c changed).1 s rest (visit1 f st s hx c changed).2
+  | .notify2 s old rest changed =>
+    notifyGo2 f (visit2 f st s hx c old changed).1 s rest (visit2 f st s hx c old changed).2
 
 /-- start `limited_history(hx)` for a coroutine: cache hit continues at once -/
 def startRead (f : Flags) (st : St) (hx : Nat) (c : Cont) : St :=
@@ -117,24 +250,80 @@ def startRead (f : Flags) (st : St) (hx : Nat) (c : Cont) : St :=
 def nthIdx (tasks : List Task) (performed : Bool) (i : Nat) : Option Nat :=
   ((tasks.zipIdx.filter (fun (t, _) => t.value.isSome == performed)).map (·.2))[i]?
 
+def nthIdxH (rs : List HRead) (performed : Bool) (i : Nat) : Option Nat :=
+  ((rs.zipIdx.filter (fun (r, _) => r.value.isSome == performed)).map (·.2))[i]?
+
+/-- `touched.intersection(self.hashX_subs)` in the order the harness fixes: ascending, each once
+    (insertion sort: structural, so that concrete runs evaluate in the kernel) -/
+def touchedOf (st : St) (s : Nat) (xs : List Nat) : List Nat :=
+  (xs.filter (subsOf st s).contains).foldr insertSorted []
+
+/-- the header notification at the head of `_notify_inner` -/
+def hdrNotify (st : St) (s : Nat) (hc : Bool) : St :=
+  if hc && hdrSubOf st s then { st with heldHdr := modifyAt st.heldHdr s (fun _ => some st.hsub) }
+  else st
+
+/-- `session.notify(touched, height_changed)` up to its first suspension -/
+def sessionNotify (f : Flags) (st : St) (s : Nat) (xs : List Nat) (hc : Bool) : St :=
+  if !aliveOf st s then st
+  else if !(touchedOf st s xs).isEmpty || (hc && !(msOf st s).isEmpty) then
+    notifyGo f (hdrNotify st s hc) s (touchedOf st s xs) []
+  else hdrNotify st s hc
+
+/-- `_notify_sessions` after `_refresh_hsub_results`: invalidate the history cache for the touched
+    script hashes, then every session's `notify` -/
+def finishNotify (f : Flags) (st : St) (xs : List Nat) (hc : Bool) : St :=
+  (List.range st.subs.length).foldl (fun acc s => sessionNotify f acc s xs hc)
+    { st with cache := st.cache.filter (fun e => !xs.contains e.1) }
+
+/-- ghost: does the header read `r` aim at the current tip (and, if performed, has it seen it) -/
+def goodRead (st : St) (r : HRead) : Bool :=
+  r.h == dbHeight st && (r.value == none || r.value == some (some (tipOf st).2))
+
 def step (f : Flags) (st : St) : Ev → St
   | .change x =>
-    { st with cur := modifyAt st.cur x (· + 1),
+    { st with conf := modifyAt st.conf x (· + 1),
               carrier := if st.carrier.contains x then st.carrier else st.carrier ++ [x] }
-  | .notify xs =>
-    let st1 : St := { st with
-      carrier := st.carrier.filter (fun x => !xs.contains x),
-      notifyCount := st.notifyCount + 1,
-      cache := st.cache.filter (fun e => !((xs.filter st.carrier.contains).contains e.1)) }
-    (List.range st.subs.length).foldl (fun acc s =>
-      notifyGo f acc s (((xs.filter st.carrier.contains).filter (subsOf acc s).contains).mergeSort
-        (fun a b => decide (a ≤ b))).eraseDups []) st1
+  | .mpChange x m =>
+    { st with mem := modifyAt st.mem x (fun _ => m),
+              carrier := if st.carrier.contains x then st.carrier else st.carrier ++ [x] }
+  | .flip x m =>
+    if memOf st x != 0 && m != 0 then
+      { st with mem := modifyAt st.mem x (fun _ => m),
+                flipped := if st.flipped.contains x then st.flipped else st.flipped ++ [x] }
+    else st
+  | .advance d =>
+    { st with chain := st.chain ++ [d], seen := st.seen ++ [(st.chain.length, d)], tipDone := false }
+  | .backup =>
+    if st.chain.length ≤ 1 then st else { st with chain := st.chain.dropLast, tipDone := false }
+  | .reorgSignal => { st with reorgCount := st.reorgCount + 1 }
+  | .notify h xs =>
+    if h != st.notifiedHeight || st.reorgCount != st.notifiedReorgCount then
+      -- height_changed: suspend in _refresh_hsub_results
+      { st with
+        notifyCount := st.notifyCount + 1,
+        carrier := st.carrier.filter (fun x => !xs.contains x),
+        notifiedReorgCount := st.reorgCount,
+        flipped := [],
+        tipDone := decide (dbHeight st ≤ h) && st.hreads.all (goodRead st),
+        hreads := st.hreads ++ [{ h := min h (dbHeight st), xs := xs, flips := st.flipped }] }
+    else
+      finishNotify f { st with notifyCount := st.notifyCount + 1,
+                               carrier := st.carrier.filter (fun x => !xs.contains x) } xs false
   | .subscribe s x => startRead f st x (.sub s x)
+  | .unsubscribe s x =>
+    { st with subs := modifyAt st.subs s (fun l => l.filter (· != x)),
+              ms := modifyAt st.ms s (dictErase x) }
+  | .closeSession s => { st with alive := modifyAt st.alive s (fun _ => false) }
+  | .subscribeHeaders s =>
+    { st with hdrSub := modifyAt st.hdrSub s (fun _ => true),
+              heldHdr := modifyAt st.heldHdr s (fun _ => some st.hsub) }
   | .getHistory _ x => startRead f st x .query
+  | .evict x => { st with cache := st.cache.filter (fun e => e.1 != x) }   -- LRU eviction
   | .readDo i =>
     match nthIdx st.tasks false i with
     | none => st
-    | some j => { st with tasks := modifyAt st.tasks j (fun t => { t with value := some (curOf st t.hx) }) }
+    | some j => { st with tasks := modifyAt st.tasks j (fun t => { t with value := some (confOf st t.hx) }) }
   | .readFinish i =>
     match nthIdx st.tasks true i with
     | none => st
@@ -151,11 +340,36 @@ def step (f : Flags) (st : St) : Ev → St
                 [{ hx := t.hx, countAtStart := st.notifyCount, cont := t.cont }] }
           else
             resume f { st with tasks := st.tasks.eraseIdx j, cache := put t.hx v st.cache } t.hx v t.cont
+  | .hdrDo i =>
+    match nthIdxH st.hreads false i with
+    | none => st
+    | some j => { st with hreads := modifyAt st.hreads j (fun r => { r with value := some st.chain[r.h]? }) }
+  | .hdrFinish i =>
+    match nthIdxH st.hreads true i with
+    | none => st
+    | some j =>
+      match st.hreads[j]? with
+      | none => st
+      | some r =>
+        match r.value with
+        | none => st
+        | some (some d) =>
+          finishNotify f { st with hreads := st.hreads.eraseIdx j, hsub := (r.h, d),
+                                   notifiedHeight := r.h } r.xs true
+        | some none =>
+          if r.h ≤ dbHeight st then
+            -- `if height <= self.db.state.height: raise`: the notification is lost
+            { st with hreads := st.hreads.eraseIdx j, lost := st.lost ++ r.xs ++ r.flips }
+          else
+            { st with hreads := st.hreads.eraseIdx j ++
+                [{ h := min r.h (dbHeight st), xs := r.xs, flips := r.flips }] }
 
 def run (f : Flags) (st : St) (evs : List Ev) : St := evs.foldl (step f) st
 
 def init (nsessions nhx : Nat) : St :=
-  { cur := List.replicate nhx 0, subs := List.replicate nsessions [],
-    held := List.replicate nsessions [] }
+  { conf := List.replicate nhx 0, mem := List.replicate nhx 0,
+    subs := List.replicate nsessions [], ms := List.replicate nsessions [],
+    held := List.replicate nsessions [], hdrSub := List.replicate nsessions false,
+    heldHdr := List.replicate nsessions none, alive := List.replicate nsessions true }
 
 end EV.System
